@@ -623,6 +623,23 @@ def rule_dtypeflow(R, modules=None):
                 k = per[(f.qual, m.root)]
                 good = _int_preserving(m.val, o)
                 yield ob(R, f, "%s:store[%s]%s" % (f.qual, m.root, "" if k == 1 else "#%d" % k), good, "the buffer %s = %s inherits the dtype of its input and is written with %s" % (m.root, tm.show(o, 2), "an integer literal or elements of that input" if good else "%s - a real-valued / foreign result that is truncated when the caller passes an integer array" % tm.show(m.val, 3)), node=m.node)
+            for m in s.by_kind("mutate"):
+                # np.divide(x, r, out=x) and friends: a real-valued ufunc result written into a buffer whose dtype comes
+                # from an input (x = velocities - velocities.min() is an integer array for integer input) raises
+                # UFuncTypeError / truncates exactly for integer input
+                if not m.how.startswith("out:") or m.d.get("old") is None:
+                    continue
+                fn_ = m.how[4:]
+                if fn_ not in ("np.divide", "np.true_divide", "np.log", "np.log2", "np.log10", "np.sqrt", "np.exp", "np.mean"):
+                    continue
+                buf = m.d.get("old")
+                base_ = buf
+                while base_.op == "bin" and base_.a[0] in ("+", "-", "*") and (is_lit(base_.a[1]) or is_lit(base_.a[2]) or tm.params_of(base_.a[1]) == tm.params_of(base_.a[2])):
+                    base_ = base_.a[1] if tm.params_of(base_.a[1]) else base_.a[2]
+                inherits = base_.op == "param" or (base_.op == "call" and call_name(base_) in _INHERIT and not any(k == "dtype" for k, _ in base_.a[2]) and tm.params_of(base_))
+                if inherits and tm.params_of(buf):
+                    n += 1
+                    yield ob(R, f, "%s:out[%s]" % (f.qual, ",".join(sorted(tm.params_of(buf)))), False, "%s(..., out=<array with the dtype of its input %s>) stores a real-valued result in place: with integer input the ufunc cannot cast its output (UFuncTypeError) or truncates it" % (fn_, tm.show(buf, 2)), node=m.node)
             for c in s.calls():
                 if c.callee in ("np.asarray", "np.array", ".astype", "np.asanyarray", "np.zeros", "np.empty", "np.full"):
                     dt = dict(c.kw).get("dtype")
@@ -993,9 +1010,19 @@ def purity_rules(prop):
                 files = tuple(sorted(x.split("/")[-1] for x in d["anchors"]["files"]))
     if not files:
         return []
+    def dtype_rule(ctx):
+        # integer-valued input is valid input for every property: no real-valued result is stored into a buffer
+        # that has an input's dtype, anywhere in what the property's entry points reach
+        reach = reach_from(ctx, files)
+        for o in rule_dtypeflow(prop + ".INTINPUT")(ctx):
+            fq = o.construct.split(":")[0]
+            if fq in reach:
+                yield o
+
     return [
         (prop + ".NOSTATE", 5, shared_reach("c15", "rule_globalstate", prop + ".NOSTATE", files)),
         (prop + ".ARGSAFE", 5, shared_reach("c15", "rule_nomut", prop + ".ARGSAFE", files)),
+        (prop + ".INTINPUT", 0, dtype_rule),
     ]
 
 
@@ -1100,5 +1127,51 @@ def rule_narrowdtype(rule, files):
                         ok = (mname, txt) in NARROW_REVIEWED
                         yield ob(rule, "mir_eval/%s.py:%d" % (mname, getattr(v, "lineno", 1)), "%s:dtype=%s@%d" % (mname, txt, n), ok, ("reviewed narrow type: %s" % NARROW_REVIEWED[(mname, txt)]) if ok else "a count / score array is given the narrow type %s: values beyond its range wrap around silently" % txt)
         need(n >= 1, rule, "no narrow dtype site found (the reviewed ones vanished)")
+
+    return run
+
+
+# ------------------------------------------------------------------ FLOORDIV
+def rule_floordiv(rule, files):
+    """`a // b` is used on integers only: for floats, floor division is computed on the exact quotient of the two
+    binary fractions (1.0 // 0.1 == 9.0 although floor(1.0 / 0.1) == 10), so a frame count written `end // hop` loses
+    its last frame exactly when the duration is a round multiple of a non-dyadic hop."""
+
+    def integral(t, f, depth=0):
+        if depth > 8:
+            return False
+        if t.op == "const":
+            return isinstance(t.a[0], (int, float)) and not isinstance(t.a[0], bool) and float(t.a[0]).is_integer() and not (isinstance(t.a[0], float) and "." in repr(t.a[0]) and False)
+        if count_form(t) is not None:
+            return True
+        if t.op == "call" and call_name(t) in ("builtins.len", "builtins.int", "np.int64", "builtins.round", "np.argmax", "np.argmin", "np.searchsorted", "np.count_nonzero"):
+            return True
+        if t.op == "sub" and t.a[0].op == "attr" and t.a[0].a[1] == "shape":
+            return True
+        if t.op == "attr" and t.a[1] in ("size", "ndim"):
+            return True
+        if t.op == "bin" and t.a[0] in ("+", "-", "*", "//", "%"):
+            return integral(t.a[1], f, depth + 1) and integral(t.a[2], f, depth + 1)
+        if t.op in ("idx",):
+            return True
+        if t.op == "param":
+            doc = [x for x in f.docinfo.get("params", []) if x[0] == t.a[0]]
+            ty = (doc[0][1] if doc else "") or ""
+            return "int" in ty and "float" not in ty
+        return False
+
+    def run(ctx):
+        n = 0
+        for f in ctx.program.all_funcs(include_new=True):
+            if f.module.path.split("mir_eval/")[-1] not in files:
+                continue
+            s = ctx.S.get(f.qual)
+            for d in s.by_kind("div"):
+                if d.d.get("op") != "//":
+                    continue
+                n += 1
+                ok = integral(d.num, f) and integral(d.den, f)
+                yield ob(rule, f, "%s:floordiv@%d" % (f.qual, n), ok, "integer floor division" if ok else "%s // %s on values that are not integers by construction: floor division of floats differs from floor(a / b) when the quotient is a whole number that the binary fractions miss" % (tm.show(d.num, 2), tm.show(d.den, 2)), node=d.node)
+        yield ob(rule, "mir_eval/", "floordiv:census", True, "%d floor divisions examined" % n)
 
     return run
